@@ -139,6 +139,18 @@ def one(ctx, cname, label):
                 exp, which = r, m
                 break
         ctx.outcome("compound-first-alt")
+        lazy = any(L.CONFIGS[m].kind == "Instance-byname" for m in members)
+        if lazy and not same(rc, exp):
+            # an Instance declared by class name is a slow alternative until
+            # its class has been resolved and a fast one afterwards, so its
+            # position in the evaluation order is not fixed: any accepting
+            # alternative's own result is accepted
+            for m in members:
+                mobj = owner_class(m)()
+                r = outcome(mobj.trait("x").validate, mobj, "x", v)
+                if r[0] != "TraitError" and same(rc, r):
+                    exp = r
+                    break
         if not same(rc, exp):
             ctx.violation(
                 "C03:compound:%s:%s" % (
